@@ -28,7 +28,7 @@ def tmpfile():
 
 def saveload(case):
     idx, scores = case
-    line = {"kind": "saveload", "saved": [], "loaded": [], "raised": "", "target": 0, "case": {"scores": scores}}
+    line = {"kind": "saveload", "saved": [], "loaded": [], "loadedRel": [], "raised": "", "target": 0, "case": {"scores": scores}}
     path = tmpfile()
     try:
         seqs = [build(sc, via(idx + i)) for i, sc in enumerate(scores)]
@@ -42,6 +42,7 @@ def saveload(case):
         loaded = Sequence.sequences_load(file_path=path) if tgt == 0 and idx % 2 == 0 else \
             Sequence.sequences_load(file_path=path, target_meta_track_index=tgt)
         line["loaded"] = [P.raw_abs(s) for s in loaded]
+        line["loadedRel"] = [P.raw_rel(s) for s in loaded]      # both views of what the loader hands out
     except Exception as e:
         line["raised"] = f"{type(e).__name__}: {e}"
     finally:
@@ -132,7 +133,7 @@ def parse_file(path):
 
 def load(case):
     idx, res, tracks, groups, meta, target = case
-    line = {"kind": "load", "res": res, "file": [], "groups": groups, "metaIdx": meta, "target": target, "loaded": [],
+    line = {"kind": "load", "res": res, "file": [], "groups": groups, "metaIdx": meta, "target": target, "loaded": [], "loadedRel": [],
             "raised": "", "case": {"res": res, "tracks": tracks, "groups": groups, "meta": meta, "target": target}}
     path = tmpfile()
     try:
@@ -155,6 +156,7 @@ def load(case):
             loaded = Sequence.sequences_load(file_path=path, track_indices=[list(g) for g in groups],
                                              meta_track_indices=list(meta), target_meta_track_index=target)
         line["loaded"] = [P.raw_abs(s) for s in loaded]
+        line["loadedRel"] = [P.raw_rel(s) for s in loaded]      # both views of what the loader hands out
     except Exception as e:
         line["raised"] = f"{type(e).__name__}: {e}"
     finally:
